@@ -68,16 +68,16 @@ CLAIMED = {
             "C10_general_corrected: for all Inv states (no dangling binding, token-size consistency), all calls naming a pid, all n: every other pid untouched, interrupted pid served its own complete bytes or not-found/inconsistent, delete_object (Val or PidRefsDoesNotExist) then store_object succeeds and makes it retrievable; the literal statement without the two side conditions is PROVED false (witnesses in props/C10general.v); menu theorem crash_recovery for 84 scenarios x every crash point; "
             "implementation: directory state before every operation (validated against real fork+os._exit for a sample), reopened by a fresh instance, compared with run_crash and checked by the property's own oracle.",
             "DESIGN.md section 6 C10", "crash = process death with completed file-system operations persisting in order: no power-loss / write-back reordering model"),
-    "C13": ("Coq proof: GENERAL theorems for every invariant state, call and fault plan (others untouched, never wrong bytes, failed store_metadata keeps the old version, the call returns with no lock left unless the flock itself fails; FaultGeneral.v) plus reflective enumeration of ALL fault sites x {one-off, persistent} of each menu scenario by the kernel, lifted to every k by run_fault_beyond (CrashFault.v, Fault13_*.v); P-trace/P-fault correspondence",
-            "general: fault_others_untouched, fault_never_wrong_bytes, store_metadata_fault_intact, fault_returns_no_lock for all Inv states / calls / fault states; any_fault_success_whole_effect (a one-off OR persistent fault after which the call reports success left exactly the permanent files of the undisturbed call - all reachable states, all calls, all positions; FaultSuccess.v, FaultPersist.v); one_off_fault_pid_consistent (a store_object / tag_object that raises after a one-off fault leaves the pid's reference files as before the call or the pid completely unbound, never half-bound - all Inv states, pid bound or not, all variants; FaultBound.v); one_off_fault_retry / one_off_fault_intact_or_retry (after a one-off fault a raising tag_object, or store_object(pid) with any readable source and matching size / checksum, leaves the earlier binding intact, or the pid unbound AND the same call issued again at once succeeds from the world the failure left - temp files, untagged object - and binds the pid completely, others untouched; retryable_iff_succeeds: these are exactly the calls that can succeed for an unbound pid; FaultRetry.v); persistent_fault_consistent_or_D10 (a store_object / tag_object that raises after a PERSISTENT fault leaves no lock and leaves the pid's reference files as before the call, or the pid completely unbound, or is a member of the D10 family stated positively: the failing site's destination is the pid's reference file or the list of the call's cid, the pid had no reference, and now has one naming the call's cid with or without its list line - all Inv states, pid bound or not, all variants, all k: no other kind of damage exists; corollaries persistent_fault_bound_pid_consistent, persistent_fault_elsewhere_consistent; FaultPersistBound.v); the literal full statement is PROVED false (persistent read failure defeats the roll-back: C13_general_statement_false = known finding D10); the retry after a persistent fault (and, once more, the whole 'unbound and storable again, or earlier binding intact' clause for both modes) is proved on the menu: fault_safe for 77 scenarios x all sites x 2 modes except the 80 points of known13 (proved to fail: D10), one_off_all_pass, no_lock_left; implementation: OSError(EIO/ENOSPC/EACCES) injected at the same site, outcome/state/locks compared with run_fault, property oracle on the implementation.",
+    "C13": ("Coq proof: GENERAL theorems for every invariant state, call and fault plan (others untouched, never wrong bytes, failed store_metadata keeps the old version, the call returns with no lock left under EVERY fault plan, a failing flock included; FaultGeneral.v, FlockFaults.v) plus reflective enumeration of ALL fault sites x {one-off, persistent} of each menu scenario by the kernel, lifted to every k by run_fault_beyond (CrashFault.v, Fault13_*.v); P-trace/P-fault correspondence",
+            "general: fault_others_untouched, fault_never_wrong_bytes, store_metadata_fault_intact for all Inv states / calls / fault states; fault_returns_no_lock_any (the call returns and no lock of any class is left for every Inv state, call and fault state, the plans that fail the flock itself included - the finaliser then closes a file whose flock it does not hold, answered by an error that is swallowed; FlockFaults.v, props/C08flock.v; fault_returns_no_lock is the earlier form with the hypothesis noflock); any_fault_success_whole_effect (a one-off OR persistent fault after which the call reports success left exactly the permanent files of the undisturbed call - all reachable states, all calls, all positions; FaultSuccess.v, FaultPersist.v); one_off_fault_pid_consistent (a store_object / tag_object that raises after a one-off fault leaves the pid's reference files as before the call or the pid completely unbound, never half-bound - all Inv states, pid bound or not, all variants; FaultBound.v); one_off_fault_retry / one_off_fault_intact_or_retry (after a one-off fault a raising tag_object, or store_object(pid) with any readable source and matching size / checksum, leaves the earlier binding intact, or the pid unbound AND the same call issued again at once succeeds from the world the failure left - temp files, untagged object - and binds the pid completely, others untouched; retryable_iff_succeeds: these are exactly the calls that can succeed for an unbound pid; FaultRetry.v); persistent_fault_consistent_or_D10 (a store_object / tag_object that raises after a PERSISTENT fault leaves no lock and leaves the pid's reference files as before the call, or the pid completely unbound, or is a member of the D10 family stated positively: the failing site's destination is the pid's reference file or the list of the call's cid, the pid had no reference, and now has one naming the call's cid with or without its list line - all Inv states, pid bound or not, all variants, all k: no other kind of damage exists; corollaries persistent_fault_bound_pid_consistent, persistent_fault_elsewhere_consistent; FaultPersistBound.v); the literal full statement is PROVED false (persistent read failure defeats the roll-back: C13_general_statement_false = known finding D10); the retry after a persistent fault (and, once more, the whole 'unbound and storable again, or earlier binding intact' clause for both modes) is proved on the menu: fault_safe for 77 scenarios x all sites x 2 modes except the 80 points of known13 (proved to fail: D10), one_off_all_pass, no_lock_left; implementation: OSError(EIO/ENOSPC/EACCES) injected at the same site, outcome/state/locks compared with run_fault, property oracle on the implementation.",
             "DESIGN.md section 6 C13", "faults are OSError raised at call entry of the failing operation (opens, renames, removes, mkdirs, file locks, and - since the last extension - every buffer write into a staging file and the append to a cid list; 83 scenarios incl. multi-buffer calls, 582 sites x 2 modes); the in-place rewrite / truncate of a cid list is not a site; reads of the caller's data source are searched on the implementation only; short writes / EINTR are not modelled"),
     "C07": ("Coq proof: reflective exhaustive exploration of ALL schedules of every menu scenario by a proved explorer (explore_sound, Sched.v; scenario_sound, Lin.v), one vm_compute per scenario; P-sched correspondence under a controlled scheduler",
             "general: (0) one_cid_taggers_linearizable - any number of tag_object calls of distinct pids on one cid are linearizable under every schedule, in cid-lock acquisition order (OneCid.v); (0b) one_cid_taggers_deleters_linearizable - any number of tag_object p_i c and delete_object q_j calls, pids pairwise distinct, every q_j bound to c in a start world satisfying Spec.Inv (reference, list membership, object present), are linearizable under every schedule in cid-lock acquisition order (a tagger joins with its 2nd step, a deleter with its 10th: find_object runs BEFORE the cid lock), results and whole final world equal to the sequential run; instance of prelude_pool (pools of calls that reach one shared lock after a prelude of private acquisitions and of reads made outside the lock, each read's continuation answer-independent under a stability predicate that solo runs of the other calls keep); the stability of 'q bound to c' is CrashGeneralT.solo_call_keeps_other (CrashGeneral's Hoare frame generalised to any thread and to a set of cared-for pids); the deleter's last-reference decision is taken from size_lines read inside the lock; deleters of unbound pids, store_object and delete_if_invalid stay menu-proved (OneCidDel.v, CrashGeneralT.v, props/C07onecidDel.v); (1) independence theorem - any pool of calls with pairwise disjoint footprints is linearizable under every schedule, equal to every sequential order (Indep.v); (2) mutual exclusion on every identifier and every modification of a cid reference list happens under that cid's lock, for any pool / schedule / fault pattern (Mutex.v); menu of conflicting calls: lin_pairs: 330 pairs (5 start states x 66 unordered pairs of an 11-call menu) and 245 triples of short calls, every schedule, linearizable and stored-is-retrievable, except the 27 pairs of known07 which are each PROVED to fail "
             "(D8 store vs removal of its content, D9 in-progress rejection caused by a delete; known findings); the model's witness schedule of every distinct outcome is replayed on the implementation (per-thread operation sequences, outcomes, files), "
             "plus random schedules, and - on scenarios whose witness replay diverges, on the wake-up families and (thorough) on every pair - a systematic preemption-bounded walk over the operations on which the calls conflict (sched.Dfs), judged against the implementation's own sequential runs of every order.",
             "DESIGN.md section 6 C07, 12.3", "preemption inside a single interposed operation, GIL switching; the menus use the semantics where an acquire of a held identifier is not enabled - SchedCV.v proves the final configurations of the faithful condition-variable semantics are among them"),
-    "C08": ("Coq proof: lock discipline of every API program as a weakest precondition over all answers (faults included), rank argument for deadlock freedom, well-founded termination (Bracket.v) - general, no menu; P-fault + P-sched correspondence",
-            "no_deadlock_no_leak / progress / gstep_terminates / runs_to_completion / afterwards_every_call_returns for any pool of calls, any schedule, any pattern of I/O failures (except a failing flock, covered by the C13 sweep); cv_no_lost_wakeup / cv_terminates in a semantics with REAL condition variables (one condition per list, notify wakes one arbitrary waiter, re-test after wake-up; SchedCV.v); "
+    "C08": ("Coq proof: lock discipline of every API program as a weakest precondition over all answers (faults included), rank argument for deadlock freedom, well-founded termination (Bracket.v; FlockFaults.v for a failing flock) - general, no menu; P-fault + P-sched correspondence",
+            "no_deadlock_no_leak / progress / gstep_terminates / runs_to_completion / afterwards_every_call_returns for any pool of calls, any schedule, any pattern of I/O failures at every fault site but the flock (Bracket.v); no_deadlock_no_leak_any_fault / progress_any_fault / gstep_terminates / runs_to_completion_any_fault: the same with the flock itself among the failing operations, any thread, any number of times (FlockFaults.v, props/C08flock.v: view-based lock invariant, exact on the identifier locks; a failed flock leaves a ghost entry in the thread's view until its close); cv_no_lost_wakeup / cv_terminates in a semantics with REAL condition variables (one condition per list, notify wakes one arbitrary waiter, re-test after wake-up; SchedCV.v); "
             "implementation: every fault site of the C13 menu (writes included) and every failing read of the data source leaves the four lists empty and a follow-up life cycle (store, delete, store, delete of the pid) returns; schedules of C07/C12 scenarios, a complete walk over the orders of the synchronisation steps of the wake-up / lock-order families, a preemption-bounded walk inside critical sections, and random 3-4 thread pools of mixed object/metadata calls complete with nothing locked.",
             "DESIGN.md section 6 C08, 12.2", "a thread blocked inside the kernel, a dead Manager process; Condition.notify() wakes at least one waiter if any waits"),
     "C12": ("Coq proof: reflective exhaustive exploration of all schedules of every metadata scenario by the proved explorer; reader clause as a separate boolean; P-sched correspondence",
